@@ -130,6 +130,30 @@ class ClassParser(BaseParser):
         # cause in the locals, same name may be the different object, we should be careful about that
         return dic
 
+    def parse_addition_type(self):
+        # options inherited from a base class: a reference in them belongs to that class's namespace
+        self.options_owner = None
+        if "__options__" not in self.obj.__dict__:
+            for base in self.obj.__mro__[1:]:
+                if "__options__" in getattr(base, "__dict__", {}):
+                    parser = self.resolve_parser(base)
+                    if isinstance(parser, ClassParser) and parser is not self:
+                        # (a class that inherited them itself points further up)
+                        self.options_owner = getattr(parser, "options_owner", None) or parser
+                    break
+        if self.options.addition and not isinstance(self.options.addition, bool):
+            self.addition_type = self.parse_annotation(annotation=self.options.addition, owner=self.options_owner)
+
+    def get_annotation_owner(self, key: str) -> Optional["ClassParser"]:
+        # the parser of the base class that wrote the annotation of an inherited field
+        for base in self.obj.__mro__[1:]:
+            if key in (getattr(base, "__dict__", {}).get("__annotations__") or {}):
+                parser = self.resolve_parser(base)
+                if isinstance(parser, ClassParser) and parser is not self:
+                    return parser
+                break
+        return None
+
     def generate_fields(self):
         exclude_vars = self.exclude_vars
         fields = []
@@ -203,13 +227,17 @@ class ClassParser(BaseParser):
                 self.fields.pop(key)
                 continue
 
+            # an inherited annotation is evaluated where it was written
+            owner = self.get_annotation_owner(key)
+            declared_globals = owner.globals if owner else global_vars
+            pending = set(self.forward_refs)
             try:
                 field = self.parser_field_cls.generate(
                     attname=key,
                     annotation=self.annotations.get(key),
                     # can get from the base classes
                     default=attr,
-                    global_vars=global_vars,
+                    global_vars=declared_globals,
                     forward_refs=self.forward_refs,
                     options=self.options,
                     force_clear_refs=self.force_clear_refs,
@@ -218,6 +246,10 @@ class ClassParser(BaseParser):
                 )
             except Exception as e:
                 raise exc.ConfigError(f'{self.name}: generate field [{repr(key)}] failed with error: {e}')
+            if owner:
+                for name in set(self.forward_refs).difference(pending):
+                    # still pending: to be evaluated in that namespace later
+                    self.forward_owners[name] = owner
 
             fields.append(field)
 
